@@ -178,10 +178,12 @@ func runApiCalls(o *opts, inDomain bool) (*summary, error) {
 		if err != nil {
 			return nil, err
 		}
+		var lastReq []byte
 		answer := func(d *stubDriver, op string, patch func(m []byte)) {
 			d.script = nil
 			if l, ok := ltRsp(lt, op); ok {
 				d.script = func(method string, req []byte) [][]byte {
+					lastReq = req
 					m := l.message(rng, 0x17, req[4:8], "valid", nil)
 					switch op {
 					case "GetCardByID", "GetCardByIndex", "GetEvent":
@@ -231,6 +233,19 @@ func runApiCalls(o *opts, inDomain bool) (*summary, error) {
 					}
 					emit(doCall(step.u, step.d, cs), cs, "answered-history")
 					step.d.script = nil
+				}
+			}
+			// replies that echo a PREFIX of the request's own payload (the door but not the state, the card but not its dates, ...)
+			// - "the controller did not quite do what was asked" is an answer like any other: one request per call
+			for _, op := range allOps {
+				if _, ok := ltRsp(lt, op); !ok {
+					continue
+				}
+				for k := 1; k <= 6; k++ {
+					cs := g.call(op, pick(g.serial()))
+					answer(d, op, func(m []byte) { copy(m[8:8+k], lastReq[8:8+k]) })
+					emit(doCall(u, d, cs), cs, "answered-history")
+					d.script = nil
 				}
 			}
 			// getter -> setter with the reported value; setter -> getter -> setter
